@@ -75,6 +75,7 @@ op("to_int", "xsimd::to_int(a)", "B", FLOAT_TYPES, "R:int")
 op("to_float", "xsimd::to_float(a)", "B", ["i32", "i64"], "R:float")
 op("nearbyint_as_int", "xsimd::nearbyint_as_int(a)", "B", FLOAT_TYPES, "R:int")
 op("ldexp", "xsimd::ldexp(a, *(xsimd::batch<xsimd::as_integer_t<T>, A> const*)(void const*)p_b)", "BB", FLOAT_TYPES)
+op("frexp", "xsimd::frexp(a, *(xsimd::batch<xsimd::as_integer_t<T>, A>*)(void*)q)", "Bq", FLOAT_TYPES)
 # C16: complex batches (z, w complex batches of element type T)
 for _n, _e, _r in (("cadd", "z + w", "C"), ("csub", "z - w", "C"), ("cneg", "-z", "C"), ("cconj", "xsimd::conj(z)", "C"), ("creal", "xsimd::real(z)", "B"),
                    ("cimag", "xsimd::imag(z)", "B"), ("ceq", "z == w", "M"), ("cneq", "z != w", "M"), ("cmul", "z * w", "C"), ("cdiv", "z / w", "C"),
